@@ -178,6 +178,7 @@ package anytype
 //@   ensures  perm: isPerm(sortPerm(A0, n), n)
 //@   ensures  elems: forall k int :: 0 <= k && k < n ==> same(x[k], old(x[sortPerm(A0, n)[k]]))
 //@   ensures  sorted: forall i int, j int :: 0 <= i && i < j && j < n ==> LE(x[i], x[j])
+//@   ensures  onto: forall k int :: {old(x[k])} 0 <= k && k < n ==> 0 <= sortInv(A0, n)[k] && sortInv(A0, n)[k] < n && same(x[sortInv(A0, n)[k]], old(x[k]))
 //@ end
 //@ instantiate sort-extern(sort.Ints, ile)
 //@ instantiate sort-extern(sort.Strings, sle)
@@ -185,22 +186,33 @@ package anytype
 
 //@ func (*list).Delete [C05 C19]
 //@   requires invL(ego)
-//@   requires single: len(indexes) == 1
+//@   requires distinct: forall a int, b int :: {indexes[a], indexes[b]} 0 <= a && a < b && b < len(indexes) ==> indexes[a] != indexes[b]
 //@   let n := len(ego.val)
+//@   let m := len(indexes)
 //@   let d := indexes[0]
+//@   let X0 := mem(indexes)
 //@   assigns  list(ego) && arr(indexes)
-//@   panics_iff d < 0 || d >= n
-//@   on_panic unchanged: listsUnchanged(H0)
-//@   ensures  len: len(ego.val) == n - 1
-//@   ensures  before: forall j int :: 0 <= j && j < d ==> ego.val[j] == old(ego.val[j])
-//@   ensures  after: forall j int :: d <= j && j < n - 1 ==> ego.val[j] == old(ego.val[j+1])
+//@   panics_iff exists k int :: {indexes[k]} 0 <= k && k < m && (indexes[k] < 0 || indexes[k] >= n)
+//@   on_panic unchanged: m == 1 ==> listsUnchanged(H0)
+//@   ensures  len: len(ego.val) == n - m
+//@   ensures  before: m == 1 ==> (forall j int :: 0 <= j && j < d ==> ego.val[j] == old(ego.val[j]))
+//@   ensures  after: m == 1 ==> (forall j int :: d <= j && j < n - 1 ==> ego.val[j] == old(ego.val[j+1]))
+//@   ensures  sorted-args: forall a int, b int :: {indexes[a], indexes[b]} 0 <= a && a < b && b < m ==> indexes[a] < indexes[b]
+//@   ensures  kept-head: m >= 1 ==> (forall p int :: {old(ego.val[p])} 0 <= p && p < indexes[0] ==> ego.val[p] == old(ego.val[p]))
+//@   ensures  kept-blocks: forall t int, p int :: {indexes[t], old(ego.val[p])} 0 <= t && t < m && indexes[t] < p && p < n && (t == m - 1 || p < indexes[t+1]) ==> ego.val[p - (t + 1)] == old(ego.val[p])
 //@   ensures  fluent: result == ego.ptr [C19]
 //@   ensures  ptr-kept: ego.ptr == old(ego.ptr)
 //@   loop 1
-//@     invariant range: -1 <= i && i <= 0 && len(indexes) == 1 && indexes[0] == d
-//@     invariant start: i == 0 ==> len(ego.val) == n && arr(ego.val) == old(arr(ego.val)) && cap(ego.val) == old(cap(ego.val)) && off(ego.val) == old(off(ego.val)) && (forall j int :: 0 <= j && j < n ==> ego.val[j] == old(ego.val[j]))
-//@     invariant done: i == -1 ==> 0 <= d && d < n && len(ego.val) == n - 1 && (forall j int :: 0 <= j && j < d ==> ego.val[j] == old(ego.val[j])) && (forall j int :: d <= j && j < n - 1 ==> ego.val[j] == old(ego.val[j+1]))
-//@     invariant ptr: ego.ptr == old(ego.ptr)
+//@     assigns list(ego)
+//@     invariant range: -1 <= i && i <= m - 1 && len(indexes) == m
+//@     invariant hdr: invL(ego) && ego.ptr == old(ego.ptr) && len(ego.val) == n - (m - 1 - i) && arr(ego.val) == old(arr(ego.val)) && cap(ego.val) == old(cap(ego.val)) && off(ego.val) == old(off(ego.val))
+//@     invariant asc: ascMark(mem(indexes), m) && (forall a int, b int :: {indexes[a], indexes[b]} 0 <= a && a < b && b < m ==> indexes[a] < indexes[b])
+//@     invariant single-kept: m == 1 ==> indexes[0] == d
+//@     invariant start: i == m - 1 ==> arr(ego.val) == old(arr(ego.val)) && cap(ego.val) == old(cap(ego.val)) && off(ego.val) == old(off(ego.val)) && (forall j int :: 0 <= j && j < n ==> ego.val[j] == old(ego.val[j]))
+//@     invariant done-in-range: forall t int :: {indexes[t]} i < t && t < m ==> 0 <= indexes[t] && indexes[t] < n
+//@     invariant last-in-range: i < m - 1 ==> 0 <= indexes[m-1] && indexes[m-1] < n
+//@     invariant kept-head: i < m - 1 ==> (forall p int :: {old(ego.val[p])} 0 <= p && p < indexes[i+1] ==> ego.val[p] == old(ego.val[p]))
+//@     invariant kept-blocks: forall t int, p int :: {indexes[t], old(ego.val[p])} i < t && t < m && indexes[t] < p && p < n && (t == m - 1 || p < indexes[t+1]) ==> ego.val[p - (t - i)] == old(ego.val[p])
 //@     decreases i + 1
 
 //@ func (*list).Pop [C05 C19]
